@@ -717,7 +717,33 @@ def h_same_distinct(c, v, operand):
 
 
 # ---- logic --------------------------------------------------------------------------------------
+def find_constraint(spec, name):
+    """named constraint node anywhere in the constraint trees of spec"""
+    def walk(c):
+        if not isinstance(c, dict) or "op" in c:
+            return None
+        if c.get("name") == name:
+            return c
+        for k in ("c", "c1", "c2"):
+            r = walk(c.get(k))
+            if r is not None:
+                return r
+        for k in ("cs", "then", "else"):
+            for x in c.get(k) or []:
+                r = walk(x)
+                if r is not None:
+                    return r
+        return None
+    for c in spec.get("constraints", []):
+        r = walk(c)
+        if r is not None:
+            return r
+    raise KeyError(name)
+
+
 def _operand(node, v):
+    if "ref" in node:
+        return holds(find_constraint(v.spec, node["ref"]), v, operand=True)
     if "type" in node:
         return holds(node, v, operand=True)
     return t_expr(node, v)
